@@ -20,7 +20,7 @@ type Config struct {
 	HostileIx bool // C15: unguarded dynamic indices (only meaningful with a bounds-check policy)
 	// HostileIxSkip (optional) excludes containers rooted in the given variable from unguarded indexing
 	HostileIxSkip func(root *Var) bool
-	MultiInv  bool // workgroup_size > 1 with invocation-indexed output
+	MultiInv      bool // workgroup_size > 1 with invocation-indexed output
 }
 
 func (c *Config) on(f string) bool { return !c.Off[f] }
@@ -58,15 +58,15 @@ type Gen struct {
 	n    int
 	Feat map[string]bool // features actually generated
 
-	globals []*Var
-	consts  []*Var
-	ovr     []*Var
-	helpers []*Func
-	wideSig []*Type // parameter types of the last wide-signature helper
-	wideRet *Type
+	globals   []*Var
+	consts    []*Var
+	ovr       []*Var
+	helpers   []*Func
+	wideSig   []*Type // parameter types of the last wide-signature helper
+	wideRet   *Type
 	calledFns map[*Func]int // how often each helper has been called so far
-	structs []*Type
-	fx      *fnCtx
+	structs   []*Type
+	fx        *fnCtx
 	// globals accessed (transitively) by each helper
 	access    map[*Func]map[*Var]bool
 	writes    map[*Func]bool // helper has side effects (writes globals / atomics)
